@@ -2,7 +2,7 @@
 C09, structural part: the reference parser reads back what the compact printer writes (`parse ∘ print`),
 for the fragment `Value.wf`.  Strong induction on the size of the value; fuel is bounded by `6 * size`.
 -/
-import SwimVerif.Proofs.Recon
+import SwimVerif.Proofs.ReconFloat
 
 set_option linter.unusedSimpArgs false
 set_option linter.unusedVariables false
@@ -46,13 +46,13 @@ def isBareAttr : Value → Bool
 
 mutual
 /-- The fragment on which print-then-parse is the identity (up to integer kinds) for the code as it is:
-* no floats (f64 ↔ text is outside the model — open),
+* floats are finite, as canonical shortest decimals (`Flt.isCanon`; f64 ↔ text itself is outside the model),
 * blob bytes are bytes,
 * a record with attributes and exactly one value item has a primitive there (finding C09-N1, not repaired); no record
   is `[Extant]` (the parser never produces one).
 Attribute names are arbitrary (F7 repaired), as are attribute values (C09-N2 repaired) and slot keys (C09-N3 repaired). -/
 def Value.wf : Value → Bool
-  | .float _ => false
+  | .float f => f.isCanon
   | .data bs => bs.all (· < 256)
   | .record a i => a.wf && i.wf && !i.isSoleExtant && (a.isEmpty || !i.isSoleVal || i.isSolePrim)
   | _ => true
@@ -74,14 +74,15 @@ theorem attrName_ident {n : List Char} (h : isIdentifier n = true) : attrName n 
 
 /-- First characters of the text of a value that is not `Extant`. -/
 def okStart (c : Char) : Bool :=
-  c == '"' || isIdentStart c || isDigit c || c == '-' || c == '%' || c == '@' || c == '{'
+  c == '"' || isIdentStart c || isDigit c || c == '-' || c == '%' || c == '@' || c == '{' || c == '+' || c == '.'
 
 /-- First characters of a primitive token. -/
-def primStart (c : Char) : Bool := c == '"' || isIdentStart c || isDigit c || c == '-' || c == '%'
+def primStart (c : Char) : Bool :=
+  c == '"' || isIdentStart c || isDigit c || c == '-' || c == '%' || c == '+' || c == '.'
 
 theorem okStart_of_prim {c : Char} (h : primStart c = true) : okStart c = true := by
   simp only [primStart, okStart, Bool.or_eq_true] at h ⊢
-  rcases h with (((h | h) | h) | h) | h <;> simp [h]
+  rcases h with (((((h | h) | h) | h) | h) | h) | h <;> simp [h]
 
 theorem okStart_ne {c : Char} (h : okStart c = true) (x : Char) (hx : okStart x = false) : c ≠ x := by
   intro he; subst he; rw [h] at hx; cases hx
@@ -95,12 +96,25 @@ theorem natChars_head (m : Nat) : ∃ d ds, natChars m = d :: ds ∧ isDigit d =
   | cons d ds => exact ⟨d, ds, rfl, natChars_digits m d (by simp [hn])⟩
 
 /-- The text of a primitive (not `Extant`) starts with a token-start character. -/
-theorem head_prim (i : Nat) {v : Value} (hp : v.isPrim = true) (hf : ∀ f, v ≠ .float f) :
+theorem head_prim (i : Nat) {v : Value} (hp : v.isPrim = true) (hw : v.wf = true) :
     ∃ c t, printV .compact i v = c :: t ∧ primStart c = true := by
   cases v with
   | extant => simp [Value.isPrim] at hp
   | record a its => simp [Value.isPrim] at hp
-  | float f => exact absurd rfl (hf f)
+  | float f =>
+    cases f with
+    | nan => simp [Value.wf, Flt.isCanon] at hw
+    | inf b => simp [Value.wf, Flt.isCanon] at hw
+    | fin neg m e =>
+      have hl := lexPrim_ryuChars neg m e (Flt.canon_cases (by simpa [Value.wf] using hw)) TokEnd.nil
+      rw [List.append_nil] at hl
+      simp only [printV]
+      cases hr : ryuChars (.fin neg m e) with
+      | nil => rw [hr] at hl; simp [lexPrim] at hl
+      | cons c t =>
+        rw [hr] at hl
+        refine ⟨c, t, rfl, ?_⟩
+        rcases lexPrim_head hl with h | h | h | h | h | h | h <;> simp [primStart, h]
   | int k n =>
     cases n with
     | ofNat m =>
@@ -123,7 +137,12 @@ theorem lexPrim_value (i : Nat) {v : Value} (hp : v.isPrim = true) (hw : v.wf = 
   cases v with
   | extant => simp [Value.isPrim] at hp
   | record a its => simp [Value.isPrim] at hp
-  | float f => simp [Value.wf] at hw
+  | float f =>
+    cases f with
+    | nan => simp [Value.wf, Flt.isCanon] at hw
+    | inf b => simp [Value.wf, Flt.isCanon] at hw
+    | fin neg m e =>
+      simpa [printV, Value.norm] using lexPrim_ryuChars neg m e (Flt.canon_cases (by simpa [Value.wf] using hw)) hd
   | int k n => simpa [printV, Value.norm] using lexPrim_int n hd
   | bool b => simpa [printV, Value.norm] using lexPrim_bool b hd
   | text s => simpa [printV, Value.norm] using lexPrim_text s hd
